@@ -15,14 +15,24 @@ CONSTANTS D,        \* program length
           Family,   \* operation alphabet
           KD,       \* deviations the judge may use (ids of known findings)
           Layout,   \* "md" = memory + disk, "mmd" = memory + memory + disk, "mm" = two memory layers
-          Cap0      \* max_entries of the first layer
+          Cap0,     \* max_entries of the first layer
+          KA, KB,   \* the two key names (Keys = {KA, KB}); the name is the tail of the cache-key string, so
+                    \* "a.tmp" / "b.TMP" give disk-layer files with the extension the directory sweep skips
+          Policy,   \* eviction policy of the memory layers: "lru" | "victim" (= lru, lfu, fifo or random: the
+                    \* check assigns one per program, the victim is open in the model anyway) | "ttl"
+          Budget    \* max_memory_bytes of the memory layers (0 = none)
 VARIABLE hist
 
 \* substituted for Kinds / Caps in the cfg (a cfg file cannot contain tuples)
 MCKinds == CASE Layout = "md" -> <<"mem", "disk">> [] Layout = "mmd" -> <<"mem", "mem", "disk">> [] Layout = "mm" -> <<"mem", "mem">>
 MCCaps  == CASE Layout = "md" -> <<Cap0, 1000>> [] Layout = "mmd" -> <<Cap0, 2, 1000>> [] Layout = "mm" -> <<Cap0, 2>>
 
-K1 == CHOOSE k \in Keys : TRUE
+MCBudgets  == [i \in 1..Len(MCKinds) |-> IF MCKinds[i] = "mem" THEN Budget ELSE 0]
+MCPolicies == [i \in 1..Len(MCKinds) |-> IF MCKinds[i] = "mem" THEN Policy ELSE "lru"]
+\* bytes of the named values as the driver concretises them (it logs its own table; this one steers the machine)
+MCSizes    == [v1 |-> 17, v2 |-> 17, e |-> 0, bad |-> 24]
+
+K1 == KA
 Low == NL - 1                  \* 0-based index of the slowest layer
 LowLayers == 1..(NL - 1)       \* 0-based indices of the layers below the first
 
@@ -44,12 +54,12 @@ OpsLayer ==     \* the named-layer operations, every layer, bad indices
   \cup {Put(k, "v2") : k \in Keys} \cup {Get(k) : k \in Keys} \cup {Rem(K1)}
 
 OpsBatch ==     \* batch calls are element-wise; ttl
-  {[op |-> "batch_put", items |-> q] : q \in {<<[k |-> "a", v |-> "v1"], [k |-> "b", v |-> "v2"]>>,
-                                               <<[k |-> "a", v |-> "v1"], [k |-> "a", v |-> "v2"]>>,
-                                               <<[k |-> "b", v |-> "v1"]>>, <<>>}}
-  \cup {[op |-> "batch_get", ks |-> q] : q \in {<<"a", "b">>, <<"b", "a">>, <<"a", "a">>, <<>>}}
-  \cup {PutL(k, "v1", Low) : k \in Keys} \cup {Get(k) : k \in Keys} \cup {Rem("a")}
-  \cup {[op |-> "put_ttl", k |-> "a", v |-> v, ttl |-> "long"] : v \in Vals}
+  {[op |-> "batch_put", items |-> q] : q \in {<<[k |-> KA, v |-> "v1"], [k |-> KB, v |-> "v2"]>>,
+                                               <<[k |-> KA, v |-> "v1"], [k |-> KA, v |-> "v2"]>>,
+                                               <<[k |-> KB, v |-> "v1"]>>, <<>>}}
+  \cup {[op |-> "batch_get", ks |-> q] : q \in {<<KA, KB>>, <<KB, KA>>, <<KA, KA>>, <<>>}}
+  \cup {PutL(k, "v1", Low) : k \in Keys} \cup {Get(k) : k \in Keys} \cup {Rem(KA)}
+  \cup {[op |-> "put_ttl", k |-> KA, v |-> v, ttl |-> "long"] : v \in Vals}
 
 OpsTtl ==       \* short TTL + tick (sleep): kept small, every tick costs wall time
   {[op |-> "put_ttl", k |-> k, v |-> "v2", ttl |-> "short"] : k \in Keys}
@@ -62,10 +72,10 @@ OpsValid ==     \* validation hooks, corruption / truncation of disk files, the 
   \cup {[op |-> f, k |-> K1] : f \in {"corrupt", "trunc0"}}
 
 OpsFault ==     \* deletion / corruption / change of length of the disk layer's files under every reader
-  {[op |-> f, k |-> "a"] : f \in FaultOps} \cup {[op |-> f, k |-> "b"] : f \in {"corrupt", "delete"}}
-  \cup {PutL(k, "v1", Low) : k \in Keys} \cup {Put("a", "v2")}
-  \cup {Get(k) : k \in Keys} \cup {GetL("a", Low), Prom("a", Low, 0), Rem("a")}
-  \cup {[op |-> "get_val", k |-> "a", ck |-> "v1"], [op |-> "batch_get", ks |-> <<"a", "b">>]}
+  {[op |-> f, k |-> KA] : f \in FaultOps} \cup {[op |-> f, k |-> KB] : f \in {"corrupt", "delete"}}
+  \cup {PutL(k, "v1", Low) : k \in Keys} \cup {Put(KA, "v2")}
+  \cup {Get(k) : k \in Keys} \cup {GetL(KA, Low), Prom(KA, Low, 0), Rem(KA)}
+  \cup {[op |-> "get_val", k |-> KA, ck |-> "v1"], [op |-> "batch_get", ks |-> <<KA, KB>>]}
 
 Ops == CASE Family = "core"  -> OpsCore
          [] Family = "layer" -> OpsLayer
@@ -74,12 +84,12 @@ Ops == CASE Family = "core"  -> OpsCore
          [] Family = "valid" -> OpsValid
          [] Family = "fault" -> OpsFault
 
-\* symmetry breaking on names: key b / value v2 is not used before a / v1 has been
+\* symmetry breaking on names: key KB / value v2 is not used before KA / v1 has been
 Names(e, f) == IF f \in DOMAIN e THEN {e[f]} ELSE {}
 Canon(e) ==
   LET usedK == UNION {Names(hist[i], "k") : i \in 1..Len(hist)}
       usedV == UNION {Names(hist[i], "v") : i \in 1..Len(hist)}
-  IN /\ ("k" \in DOMAIN e /\ e.k = "b") => ("a" \in usedK \/ Family \in {"batch", "fault"})
+  IN /\ ("k" \in DOMAIN e /\ e.k = KB) => (KA \in usedK \/ Family \in {"batch", "fault"})
      /\ ("v" \in DOMAIN e /\ e.v = "v2") => ("v1" \in usedV \/ Family \in {"batch", "layer", "ttl", "fault"})
 
 MCInit == MInit /\ hist = <<>>
@@ -97,7 +107,8 @@ Returns      == EveryCallReturns
 GhostSane    == \A k \in Keys : ValsAt(L, k) \subseteq g.fresh[k] \cup g.stale[k]
 
 \* --- program output ----------------------------------------------------------
-Prog == [kinds |-> Kinds, caps |-> Caps, hooks |-> Hooks, keys |-> <<"a", "b">>, ops |-> hist]
+Prog == [kinds |-> Kinds, caps |-> Caps, budgets |-> Budgets, policies |-> Policies, hooks |-> Hooks,
+         keys |-> <<KA, KB>>, ops |-> hist]
 Emit ==
   /\ (pc = "idle" /\ Len(hist) = D) => PrintT(<<"PROGRAM", ToJson(Prog)>>)
   /\ Stuck => PrintT(<<"HANGPROG", ToJson(Prog)>>)
